@@ -53,6 +53,10 @@ enum resp {
 	RS_EOD_OTHER_FMT, /* End of Data in the other version's format */
 	RS_HIGHER_ANSWER, /* answer carries version 2 */
 	RS_HIGHER_CR_ONLY, /* a Cache Response carrying version 2, then a complete answer in version 0 on the same connection */
+	RS_ERR_CORRUPT, /* Error Reports with the remaining codes: each has its own branch in the client */
+	RS_ERR_INVALID_REQ,
+	RS_ERR_UNSUPP_PDU,
+	RS_ERR_UNKNOWN_CODE,
 	RS__N
 };
 
@@ -63,6 +67,7 @@ static const char *RESP_NAME[RS__N] = {
 	"err-unsupported-version(lower)", "err-unsupported-version(same)", "err-unsupported-version(higher)", "err-unsupported-version(v1)",
 	"answer-in-version-0", "one-pdu-with-other-version", "eod-in-other-format", "answer-in-version-2",
 	"cache-response-in-version-2-then-answer-in-version-0",
+	"err-corrupt-data", "err-invalid-request", "err-unsupported-pdu-type", "err-unknown-code(255)",
 };
 
 static int MENU[RS__N];
@@ -586,6 +591,18 @@ static void respond(int kind, const struct rpdu *q)
 		break;
 	case RS_ERR_NODATA:
 		pdu_error(&b, ver, EC_NO_DATA, NULL, 0, "no data", 7);
+		break;
+	case RS_ERR_CORRUPT:
+		pdu_error(&b, ver, EC_CORRUPT, q->raw, q->len, "c", 1);
+		break;
+	case RS_ERR_INVALID_REQ:
+		pdu_error(&b, ver, EC_INVALID_REQ, q->raw, q->len, "", 0);
+		break;
+	case RS_ERR_UNSUPP_PDU:
+		pdu_error(&b, ver, EC_UNSUPP_PDU, q->raw, q->len, "unsupported", 11);
+		break;
+	case RS_ERR_UNKNOWN_CODE:
+		pdu_error(&b, ver, 255, NULL, 0, "?", 1);
 		break;
 	case RS_ERR_INTERNAL:
 		pdu_error(&b, ver, EC_INTERNAL, NULL, 0, "", 0);
@@ -1269,8 +1286,14 @@ static void setup_menus(void)
 		/* faults that change the protocol version, and a transport error in the middle of a payload */
 		menu_add(RS_ERR_UNSUPP_LOWER);
 		menu_add(RS_V0_ANSWER);
-		if (is_prop("C08"))
+		if (is_prop("C08")) {
 			menu_add(RS_CUT_ERR);
+			/* Error Reports of every other kind (each code has its own branch in the client) */
+			menu_add(RS_ERR_CORRUPT);
+			menu_add(RS_ERR_INVALID_REQ);
+			menu_add(RS_ERR_UNSUPP_PDU);
+			menu_add(RS_ERR_UNKNOWN_CODE);
+		}
 	} else if (is_prop("C17")) {
 		menu_add(RS_OK_NEW);
 		menu_add(RS_TIMEOUT);
